@@ -188,8 +188,7 @@ def gen_program(rng, force=None):
             if fam == "rshdefect":
                 k = rng.choice([0, 0, dr["b"] + 1, 2 * dr["b"], rng.range(0, dr["size"] * dr["b"]), rng.range(0, (dr["size"] + 2) * dr["b"])])
             else:
-                # the sound region of vec_znx_rsh_assign: one limb step, k ≠ 0 (see known findings)
-                k = rng.range(1, dr["b"]) if rng.chance(7, 8) else rng.range(0, (dr["size"] + 2) * dr["b"])
+                k = rng.range(0, (dr["size"] + 2) * dr["b"])
             ops.append((name, k, r))
         elif name == "lsh_assign":
             ops.append((name, r, rng.range(0, (dr["size"] + 2) * dr["b"])))
@@ -352,12 +351,15 @@ def admissible(name, r, a=None, b=None):
         return r["b"] == a["b"] and r["rank"] >= a["rank"]
     if name in ("sub_assign", "sub_negate_assign"):
         return r["b"] == a["b"] and (r["rank"] == a["rank"] or a["rank"] == 0)
-    if name in ("negate", "mul_xp_minus_one", "normalize"):
+    if name == "normalize":
         return r["rank"] == a["rank"]
+    if name in ("negate", "mul_xp_minus_one"):
+        return r["b"] == a["b"] and r["rank"] == a["rank"]
     if name in ("copy", "rotate"):
-        return r["rank"] == a["rank"] or a["rank"] == 0
+        return r["b"] == a["b"] and (r["rank"] == a["rank"] or a["rank"] == 0)
     if name == "ggsw_rotate":
-        return r["dnum"] <= a["dnum"] and r["dsize"] == a["dsize"] and r["rank"] == a["rank"]
+        # glwe_rotate on every entry carries the radix assertion
+        return r["dnum"] <= a["dnum"] and r["dsize"] == a["dsize"] and r["rank"] == a["rank"] and (r["b"] == a["b"] or r["dnum"] == 0)
     return True
 
 
@@ -743,9 +745,9 @@ def run(ctx):
         "harness/src/cmd_ops.rs, lean/Poulpy/Driver/Ops.lean (parsing / printing), vlib/c02.py (generator, comparison, Python oracle)",
     ]
     ctx.assumptions += [
-        "scratch.available() >= tmp_bytes assertions are not modelled (the harness supplies 64 KiB of scratch); scratch *content* is an explicit input (pattern scr)",
+        "scratch.available() >= tmp_bytes assertions are not modelled (the harness supplies 64 KiB of scratch); scratch *content* is an explicit input (pattern scr) that no operation may depend on",
         "all pool entries have the module's ring degree (the n-mismatch assertions are not exercised)",
-        "shift / normalisation theorems take the value specification of the per-column kernel as an explicit hypothesis (names *_modulo_norm) until Props/C08 exports it",
+        "glwe_normalize (cross radix) and glwe_lsh_assign theorems take the value specification of the per-column kernel as an explicit hypothesis (names *_modulo_norm); glwe_rsh / glwe_normalize_assign use the C08 value theorems; glwe_lsh / lsh_add / lsh_sub have no theorem (correspondence + oracle only)",
     ]
     ok, failures = ctx.proof_gate(["Poulpy.Props.C02"])
     broken = list(failures)
